@@ -10,6 +10,9 @@ CLAIMED = {
  "C02": ("Coq theorems over all operation sequences and targets: recording through the overload table and evaluating with _t_eval's loop equals replaying the denoted Python operations left to right with nested T arguments evaluated on the original target (texpr_denotes), no operation dropped (texpr_no_drop), first failing attribute/item/arithmetic operation k surfaces as PathAccessError(.., k) (texpr_failure_position); overload_dispatch_total/sound are proved about the tables regenerated from TType and _t_eval on every run.",
          "DESIGN.md section 7 C02", TB + "; floats, str %, set operators outside the model; nested T arguments by open recursion",
          "Coq proof (refinement to a replay semantics) + regenerated-table obligations + three-way correspondence (model, spec, glom) + direct Python evaluation"),
+ "C18": ("Coq theorems, generic in the representation of roots/opcodes/arguments, about the slice/zip/len expressions regenerated from Path's methods on every run: len, values, items, int indexing (IndexError exactly outside [-n, n)), slicing = tuple slicing of the steps for ALL triples, ==, startswith, Path(p, q) concatenation; __setstate__(__getstate__ x) = x; glom(t, Path(p, q)) = glom(glom(t, p), q). repr: an executable token-level model of _format_t/_format_path/_format_slice/format_invocation and of eval's reading (Path.__init__ flattening) is compared with the real repr tokens, the real eval and pickle on every case; the codec round-trip theorem about that model is staged (DESIGN.md section 12).",
+         "DESIGN.md section 7 C18", TB + "; Python's tokenizer/parser, repr of atoms and pickle outside the model",
+         "Coq proof (sequence laws over regenerated slice expressions) + executable repr/eval model in correspondence with real repr/eval/pickle"),
 }
 REASON_WIP = "check not built yet (work in progress; see DESIGN.md section 7 for the plan)"
 NA = {}
